@@ -118,6 +118,15 @@ def check_property(pid, tier, seed):
     skipped = [v for v in verdicts if v.status == "skipped"]
     discharged = [v for v in verdicts if v.status == "discharged"]
     vacuous = [c for c in cover_v if c.kind == "pre-sat" and c.status == "UNSATISFIABLE"]
+    # vacuity of postconditions: a function configuration none of whose normal exits is reachable under its precondition has its postconditions proved
+    # about nothing (a contradictory invariant or model would do that) - it is not counted as decided
+    exits = {}
+    for c in cover_v:
+        if c.kind == "path-cover" and ":path-cover[return@" in c.name:
+            exits.setdefault(c.name.split(":path-cover[")[0], []).append(c.status)
+    for fnq, sts in sorted(exits.items()):
+        if sts and all(x == "UNSATISFIABLE" for x in sts) and any(v.kind == "post" and v.name.startswith(fnq + ":") for v in verdicts):
+            undecided_fns.append((fnq, "no normal exit is reachable under the precondition and the loop invariants: the postconditions would hold vacuously"))
 
     # ---- native harness (cross-check of every contract + the bounded clauses); focus on failing functions first
     candidates = [v for v in verdicts if v.status == "candidate"] + text_mismatch
